@@ -429,44 +429,49 @@ Fixpoint snap_of (i : nat) (l : list (nat * list nat)) : list nat :=
   end.
 
 (* C02: at most once, never a rejected one, nothing after the exit, real-time order
-   (a send that had returned Ok before send j began is handled before j), and - when the
-   actor is still alive and idle at the end - every Ok send was handled *)
+   (a send that had returned Ok before send j began is handled before j), a wrong-typed
+   send returns InvalidActorType and is never handled, and - when the actor is still alive
+   and idle at the end - every Ok send was handled *)
 Record o2 := mkO2 { b_begun : list nat; b_snap : list (nat * list nat); b_ok : list nat;
                     b_rej : list nat; b_ended : list nat; b_handled : list nat;
-                    b_exited : bool; b_bad : bool }.
+                    b_exited : bool; b_wrong : list nat; b_bad : bool }.
 
-Definition o2_init : o2 := mkO2 [] [] [] [] [] [] false false.
+Definition o2_init : o2 := mkO2 [] [] [] [] [] [] false [] false.
 Definition o2_fail (o : o2) : o2 :=
-  mkO2 (b_begun o) (b_snap o) (b_ok o) (b_rej o) (b_ended o) (b_handled o) (b_exited o) true.
+  mkO2 (b_begun o) (b_snap o) (b_ok o) (b_rej o) (b_ended o) (b_handled o) (b_exited o) (b_wrong o) true.
 
 Definition o2_step (o : o2) (e : ev) : o2 :=
   match e with
-  | EBegin i _ =>
+  | EBegin i w =>
       if mem i (b_begun o) then o2_fail o
       else mkO2 (i :: b_begun o) ((i, b_ok o) :: b_snap o) (b_ok o) (b_rej o) (b_ended o)
-                (b_handled o) (b_exited o) (b_bad o)
+                (b_handled o) (b_exited o) (if w then i :: b_wrong o else b_wrong o) (b_bad o)
   | EEnd i r =>
       if negb (mem i (b_begun o)) || mem i (b_ended o) then o2_fail o
       else match r with
-           | ROk => mkO2 (b_begun o) (b_snap o) (i :: b_ok o) (b_rej o) (i :: b_ended o)
-                         (b_handled o) (b_exited o) (b_bad o)
+           | ROk =>
+               if mem i (b_wrong o) then o2_fail o
+               else mkO2 (b_begun o) (b_snap o) (i :: b_ok o) (b_rej o) (i :: b_ended o)
+                         (b_handled o) (b_exited o) (b_wrong o) (b_bad o)
            | RErr m =>
-               if Nat.eqb m i && negb (mem i (b_handled o))
+               if Nat.eqb m i && negb (mem i (b_handled o)) && negb (mem i (b_wrong o))
                then mkO2 (b_begun o) (b_snap o) (b_ok o) (i :: b_rej o) (i :: b_ended o)
-                         (b_handled o) (b_exited o) (b_bad o)
+                         (b_handled o) (b_exited o) (b_wrong o) (b_bad o)
                else o2_fail o
            | RInvalid =>
                if mem i (b_handled o) then o2_fail o
                else mkO2 (b_begun o) (b_snap o) (b_ok o) (i :: b_rej o) (i :: b_ended o)
-                         (b_handled o) (b_exited o) (b_bad o)
+                         (b_handled o) (b_exited o) (b_wrong o) (b_bad o)
            end
   | EHandle i =>
       if mem i (b_handled o) || mem i (b_rej o) || negb (mem i (b_begun o)) || b_exited o
+         || mem i (b_wrong o)
          || negb (subset (snap_of i (b_snap o)) (b_handled o))
       then o2_fail o
       else mkO2 (b_begun o) (b_snap o) (b_ok o) (b_rej o) (b_ended o) (i :: b_handled o)
-                (b_exited o) (b_bad o)
-  | EExit _ => mkO2 (b_begun o) (b_snap o) (b_ok o) (b_rej o) (b_ended o) (b_handled o) true (b_bad o)
+                (b_exited o) (b_wrong o) (b_bad o)
+  | EExit _ => mkO2 (b_begun o) (b_snap o) (b_ok o) (b_rej o) (b_ended o) (b_handled o) true
+                    (b_wrong o) (b_bad o)
   | _ => o
   end.
 
